@@ -64,9 +64,9 @@ class Skip(Exception):
 
 # --------------------------------------------------------------------------- small helpers
 
-def bulk(dr, idx, evs):
+def bulk(dr, idx, evs, org=0):
     body = "".join(json.dumps({"index": {"_index": idx}}) + "\n" + json.dumps(e) + "\n" for e in evs)
-    r = dr.ok("bulk", body=body)
+    r = dr.ok("bulk", body=body, org=org)
     if r.get("processed") != len(evs) or r.get("response", {}).get("errors"):
         raise vlib.Infra("bulk ingest refused while building a scenario: %s" % json.dumps(r)[:400])
 
@@ -88,6 +88,14 @@ def read_lines(path):
 
 def segmeta_keys(info):
     return [m.get("segmentKey") for m in read_lines(info["segmeta"])]
+
+
+def segmeta_lines(info):
+    """segmeta.json as {segment key: decoded line} (every field of the line)"""
+    return {m.get("segmentKey"): m for m in read_lines(info["segmeta"])}
+
+
+TABLES = ["c14a", "c14b", "c14x", "c14y"]
 
 
 def mmeta_dirs(info):
@@ -198,6 +206,7 @@ class Scenario:
         self.fill_dir = None
         self.fill_n = 0
         self.t_lo = self.t_hi = None
+        self.orgs = sorted(set(x.get("org", 0) for x in beh["segs"]) | {0})
 
     # ---- process life
     def start(self, first):
@@ -250,8 +259,13 @@ class Scenario:
                 vlib.rmtree(self.dir)
 
     # ---- building
+    def org_of(self, i):
+        return self.beh["segs"][i - 1].get("org", 0)
+
     def index_of(self, i):
-        return "c14b" if (self.conc["two_indexes"] and i % 2 == 0) else "c14a"
+        # every organisation has its own index names (deletion of an emptied index is keyed by name: C13's subject, not C14's)
+        a, b = ("c14a", "c14b") if self.org_of(i) == 0 else ("c14x", "c14y")
+        return b if (self.conc["two_indexes"] and i % 2 == 0) else a
 
     def build(self):
         beh, conc = self.beh, self.conc
@@ -310,7 +324,7 @@ class Scenario:
                 for r in range(cs.get("m", 1)):
                     e1, e2 = dict(ev1, r=r), dict(ev2, r=r)
                     before = set(segmeta_keys(self.info))
-                    bulk(self.dr, self.index_of(i), [e1, e2])
+                    bulk(self.dr, self.index_of(i), [e1, e2], org=self.org_of(i))
                     self.dr.ok("rotate")
                     new = [k for k in segmeta_keys(self.info) if k not in before]
                     if len(new) != 1:
@@ -377,8 +391,8 @@ class Scenario:
                 time.sleep(0.5)
 
     # ---- observation
-    def query(self, text):
-        r = self.dr.ok("query", text=text, index="*", start=1, end=int(time.time() * 1000) + FAR, size=1000)
+    def query(self, text, org=0):
+        r = self.dr.ok("query", text=text, index="*", start=1, end=int(time.time() * 1000) + FAR, size=1000, org=org)
         return r
 
     def mquery(self):
@@ -403,22 +417,25 @@ class Scenario:
 
     def observe(self):
         o = {}
-        r = self.query("*")
-        if "qerr" in r:
-            o["search_err"] = r["qerr"]
-            recs = set()
-        else:
-            recs = set((x.get("seg_marker"), x.get("k"), x.get("r") or 0) for x in ((r.get("hits") or {}).get("records") or []))
-            if r.get("errors"):
-                o["search_errors_field"] = r.get("errors")
-        r2 = self.query("* | stats count by seg_marker")
-        counts = {}
-        if "qerr" in r2:
-            o["stats_err"] = r2["qerr"]
-        else:
-            for m in r2.get("measure") or []:
-                g = m.get("GroupByValues") or [None]
-                counts[g[0]] = (m.get("MeasureVal") or {}).get("count(*)")
+        recs_by, counts_by = {}, {}
+        for org in self.orgs:           # every organisation asks for itself
+            r = self.query("*", org)
+            if "qerr" in r:
+                o["search_err"] = r["qerr"]
+                recs_by[org] = set()
+            else:
+                recs_by[org] = set((x.get("seg_marker"), x.get("k"), x.get("r") or 0) for x in ((r.get("hits") or {}).get("records") or []))
+                if r.get("errors"):
+                    o["search_errors_field"] = r.get("errors")
+            r2 = self.query("* | stats count by seg_marker", org)
+            counts_by[org] = {}
+            if "qerr" in r2:
+                o["stats_err"] = r2["qerr"]
+            else:
+                for m in r2.get("measure") or []:
+                    g = m.get("GroupByValues") or [None]
+                    counts_by[org][g[0]] = (m.get("MeasureVal") or {}).get("count(*)")
+        recs, counts = recs_by[0], counts_by[0]
         has_met = any(v["kind"] == "met" for v in self.seg.values())
         mq = self.mquery() if has_met else {"series": {}}
         if "qerr" in mq:
@@ -427,38 +444,46 @@ class Scenario:
         sm = segmeta_keys(self.info)
         mm = mmeta_dirs(self.info)
         logkeys = [mb["key"] for v in self.seg.values() if v["kind"] == "log" for mb in v["members"]]
-        pk = self.dr.ok("ret_pick", keys=logkeys, tables=["c14a", "c14b"])
-        mem, rev, picked = set(pk["all"]), set(pk["rev"]), set(pk["picked"])
+        pk_by = {org: self.dr.ok("ret_pick", keys=logkeys, tables=TABLES, org=org) for org in self.orgs}
+        rev = set(pk_by[0]["rev"])
+        o["lines"] = segmeta_lines(self.info)
         pql = self.pq_listed() if self.with_pq else set()
         o["segmeta_dups"] = len(sm) != len(set(sm))
         o["tmp_files"] = [p for p in (self.info["segmeta"] + ".tmp", self.info["metricsmeta"] + ".tmp") if os.path.exists(p)]
         # keys the time-filtered selection returns although nobody listed them (must be data of this scenario only)
-        o["picked_unlisted"] = sorted(k for k in picked if k not in sm)
+        o["picked_unlisted"] = sorted(k for org in self.orgs for k in pk_by[org]["picked"] if k not in sm)
         segs = {}
         for i, v in self.seg.items():
             if v["kind"] == "log":
-                cnt = counts.get("s%d" % i) or 0
-                mst, agg = [], {"files": 0, "listed": 0, "mem": 0, "rev": 0, "picked": 0, "pq": 0, "found": 0}
+                own = self.org_of(i)
+                others = [x for x in self.orgs if x != own]
+                cnt = counts_by[own].get("s%d" % i) or 0
+                mst, agg = [], {"files": 0, "listed": 0, "mem": 0, "rev": 0, "picked": 0, "pq": 0, "found": 0, "foreign": 0}
                 for mb in v["members"]:
-                    f = {"files": os.path.isdir(mb["dir"]), "listed": mb["key"] in sm, "mem": mb["key"] in mem,
-                         "rev": mb["key"] in rev, "picked": mb["key"] in picked, "pq": mb["key"] in pql,
-                         "found": len([e for e in mb["events"] if e in recs])}
+                    # own organisation's view, and `foreign`: any other organisation finds / selects / holds the segment
+                    f = {"files": os.path.isdir(mb["dir"]), "listed": mb["key"] in sm, "mem": mb["key"] in pk_by[own]["all"],
+                         "rev": mb["key"] in rev, "picked": mb["key"] in pk_by[own]["picked"], "pq": mb["key"] in pql,
+                         "found": len([e for e in mb["events"] if e in recs_by[own]]),
+                         "foreign": sum(len([e for e in mb["events"] if e in recs_by[x]]) + int(mb["key"] in pk_by[x]["picked"]) +
+                                        int(mb["key"] in pk_by[x]["all"]) for x in others)}
                     for k2 in agg:
                         agg[k2] += int(f[k2])
-                    present = f["files"] and f["listed"] and f["mem"] and f["rev"] and f["picked"] and f["found"] == len(mb["events"])
-                    absent = not (f["files"] or f["listed"] or f["mem"] or f["rev"] or f["picked"] or f["pq"] or f["found"])
+                    present = f["files"] and f["listed"] and f["mem"] and f["rev"] and f["picked"] and f["found"] == len(mb["events"]) \
+                        and not f["foreign"]
+                    absent = not (f["files"] or f["listed"] or f["mem"] or f["rev"] or f["picked"] or f["pq"] or f["found"] or f["foreign"])
                     mst.append("alive" if present else "gone" if absent else "mixed")
                 n = len(v["members"])
                 # group view: a flag is True if it holds for ANY member; n_* tell for how many
                 segs[i] = {"files": agg["files"] > 0, "listed": agg["listed"] > 0, "mem": agg["mem"] > 0, "rev": agg["rev"] > 0,
                            "picked": agg["picked"] > 0, "pq": agg["pq"] > 0, "found": agg["found"], "count": cnt, "of": len(v["events"]),
+                           "foreign": agg["foreign"], "org": own,
                            "m": n, "members_alive": mst.count("alive"), "members_gone": mst.count("gone"),
                            "n": {k2: agg[k2] for k2 in ("files", "listed", "mem", "rev", "picked")}}
             else:
                 got = mq["series"].get(v["series"], [])
                 segs[i] = {"files": os.path.isdir(v["dir"]), "listed": v["key"] in mm,
                            "found": len([t for t in v["pts"] if t in got]), "of": len(v["pts"]), "extra": len([t for t in got if t not in v["pts"]]),
-                           "pq": False, "m": 1}
+                           "pq": False, "m": 1, "foreign": 0, "org": 0}
                 segs[i]["mem"] = segs[i]["found"] > 0
                 segs[i]["rev"] = segs[i]["picked"] = segs[i]["mem"]
                 segs[i]["count"] = segs[i]["found"]
@@ -472,13 +497,13 @@ class Scenario:
         return o
 
     # ---- the pass and its steps
-    def run_pass(self):
+    def run_pass(self, org=0):
         if self.kind == "time":
-            r = self.dr.ok("ret_time", hours=self.conc["hours"])
+            r = self.dr.ok("ret_time", hours=self.conc["hours"], org=org)
             used_hz = r["after_ms"] - self.conc["hours"] * HOUR_MS
             if used_hz >= self.hz + MARGIN_MS:
                 raise vlib.Infra("scenario too slow: the horizon moved past the 'newer' events (%d ms)" % (used_hz - self.hz))
-            self.trace.append({"pass": "time", "hours": self.conc["hours"], "horizon_moved_ms": used_hz - self.hz})
+            self.trace.append({"pass": "time", "org": org, "hours": self.conc["hours"], "horizon_moved_ms": used_hz - self.hz})
         elif self.kind == "volume":
             v = self.dr.ok("ret_sysvol")
             self.dr.ok("ret_volume", gb=0, warn=5)
@@ -654,19 +679,30 @@ def run_behaviour(binary, beh, conc, allow_mount=True, victims=None):
             sc.start(False)
             if sc.kind == "inode":
                 sc.cur_free = free2
-        sc.run_pass()
-        res = {"final": settle(sc), "own_steps": own}
+        o1 = steps[0].get("org", 0)
+        pre_lines = pre_obs["lines"]
+        sc.run_pass(o1)
+        res = {"final": settle(sc), "own_steps": own, "pre_lines": pre_lines, "org": o1}
         # plain repetition of the completed pass
         if sc.kind == "inode":
             # the next tick sees the usage the first pass left behind
             used, total = statvfs_used(sc.dir)
             sc.cur_free = used - int(float(total) * float(INODE_MAX_PCT) / 100.0)
-        sc.run_pass()
+        sc.run_pass(o1)
         res["after_repeat"] = settle(sc, res["final"])
         # a fresh process must see the same thing (metadata files are what it loads)
         sc.stop()
         sc.start(False)
         res["after_restart"] = settle(sc, res["after_repeat"])
+        others = [x for x in sc.orgs if x != o1]
+        if others and sc.kind == "time" and len(sc.orgs) > 1:
+            # the other organisation's own pass (its next tick), seen by the running process and by a fresh one
+            sc.run_pass(others[0])
+            res["org2"] = others[0]
+            res["after_other_org"] = settle(sc)
+            sc.stop()
+            sc.start(False)
+            res["after_other_org_restart"] = settle(sc, res["after_other_org"])
         res["trace"] = sc.trace
         res["keys"] = {i: v["key"] for i, v in sc.seg.items()}
         return res
@@ -693,7 +729,7 @@ def classify(s):
 
 def obs_key(o):
     return json.dumps({"segs": {str(i): [s["files"], s["listed"], s["mem"], s["rev"], s["picked"], s["found"], s["count"], s["pq"],
-                                         s["members_alive"], s["members_gone"]] for i, s in o["segs"].items()},
+                                         s["members_alive"], s["members_gone"], s.get("foreign", 0)] for i, s in o["segs"].items()},
                        "open": [o["open_found"], o["open_count"]]}, sort_keys=True)
 
 
@@ -734,106 +770,135 @@ def judge(beh, res, ref_final):
     pn = kind + "-pass"
     if "died" in res:
         return [("C14:%s:engine-died%s" % (pn, suffix), "engine process ended by itself: " + res["died"])]
-    o = res["final"]
     segs = beh["segs"]
-    state = {}
-    for i, s in sorted(o["segs"].items()):
-        k = segs[i - 1]["kind"]
-        kn = "log" if k == "log" else "metrics"
-        alive, gone = classify(s)
-        state[i] = "alive" if alive else "gone" if gone else "mixed"
-        if alive or gone:
-            continue
-        grp = "" if s["m"] == 1 else " [group of %d segments with identical time range: %d alive, %d gone; per structure %s]" % (
-            s["m"], s["members_alive"], s["members_gone"], s.get("n"))
-        if s["m"] > 1 and s["members_alive"] + s["members_gone"] == s["m"]:
-            # every member is cleanly alive or cleanly gone, but not all the same: judged below (which had to go / stay)
-            state[i] = "split"
-            if kind != "time":
-                out.append(("C14:%s:tied-%s-segments-partly-deleted%s" % (pn, kn, suffix),
-                            "segment group %d: %d of %d segments with identical time range deleted, the others kept%s" % (
-                                i, s["members_gone"], s["m"], grp)))
-            continue
-        data_gone = (not s["files"]) or s["found"] == 0
-        meta = "segmeta.json" if k == "log" else "metricmeta.json"
-        if s["listed"] and not s["files"]:
-            out.append(("C14:%s:%s-lists-deleted-segment%s" % (pn, meta, suffix),
-                        "segment %d (%s): directory removed but %s still lists it: %s" % (i, kn, meta, s)))
-        elif (not s["listed"]) and s["files"]:
-            out.append(("C14:%s:%s-segment-files-remain-unlisted%s" % (pn, kn, suffix),
-                        "segment %d (%s): removed from %s but its directory is still there: %s" % (i, kn, meta, s)))
-        elif s["listed"] and s["files"] and (s["found"] != s["of"] or s["count"] != s["of"]):
-            out.append(("C14:%s:surviving-%s-segment-not-fully-searchable%s" % (pn, kn, suffix),
-                        "segment %d (%s) is listed and on disk but search returns %d/%d events (stats count %s): %s" % (
-                            i, kn, s["found"], s["of"], s["count"], s)))
-        elif (not s["listed"]) and (not s["files"]) and (s["found"] or s["count"]):
-            out.append(("C14:%s:deleted-%s-data-still-returned-by-search%s" % (pn, kn, suffix),
-                        "segment %d (%s) is deleted but search still returns %d events (stats count %s)" % (i, kn, s["found"], s["count"])))
-        elif (not s["listed"]) and (not s["files"]) and s["mem"]:
-            out.append(("C14:%s:deleted-%s-segment-still-in-memory-metadata%s" % (pn, kn, suffix),
-                        "segment %d (%s): directory and %s entry are gone but the in-memory segment metadata (what queries walk) "
-                        "still holds its key%s" % (i, kn, meta, grp)))
-        elif (not s["listed"]) and (not s["files"]) and s["picked"]:
-            out.append(("C14:%s:deleted-%s-segment-still-selected-for-search%s" % (pn, kn, suffix),
-                        "segment %d (%s): directory and %s entry are gone, but the time-filtered segment selection every query starts "
-                        "from (FilterSegmentsByTime over the per-table list) still returns its key%s%s" % (
-                            i, kn, meta, grp, ("; query errors: %s" % str(o.get("search_errors_field"))[:200]) if o.get("search_errors_field") else "")))
-        elif (not s["listed"]) and (not s["files"]) and s["rev"]:
-            out.append(("C14:%s:deleted-%s-segment-still-in-reverse-index%s" % (pn, kn, suffix),
-                        "segment %d (%s): directory and %s entry are gone but GetMicroIndex still resolves its key%s" % (i, kn, meta, grp)))
-        elif s["listed"] and s["files"] and s["found"] == s["of"] and s["count"] == s["of"] and s["m"] == s.get("n", {}).get("files", 1) \
-                and s["m"] == s.get("n", {}).get("listed", 1):
-            missing = [k2 for k2 in ("mem", "rev", "picked") if s.get("n", {}).get(k2, s["m"]) != s["m"]]
-            out.append(("C14:%s:surviving-%s-segment-missing-from-in-memory-metadata%s" % (pn, kn, suffix),
-                        "segment %d (%s) is on disk and listed but missing from %s%s" % (i, kn, missing, grp)))
-        elif s["pq"] and data_gone:
-            out.append(("C14:%s:empty-pq-meta-lists-deleted-segment%s" % (pn, suffix),
-                        "segment %d is deleted (directory, segmeta.json, search) but an empty-PQ meta file still lists its key" % i))
+    first_org = res.get("org", 0)
+
+    def stage(o, passed, suffix):
+        """findings of one settled observation; passed = organisations whose pass has run (time pass)"""
+        state = {}
+        for i, s in sorted(o["segs"].items()):
+            k = segs[i - 1]["kind"]
+            kn = "log" if k == "log" else "metrics"
+            alive, gone = classify(s)
+            state[i] = "alive" if alive else "gone" if gone else "mixed"
+            if alive or gone:
+                continue
+            grp = "" if s["m"] == 1 else " [group of %d segments with identical time range: %d alive, %d gone; per structure %s]" % (
+                s["m"], s["members_alive"], s["members_gone"], s.get("n"))
+            if s["m"] > 1 and s["members_alive"] + s["members_gone"] == s["m"]:
+                # every member is cleanly alive or cleanly gone, but not all the same: judged below (which had to go / stay)
+                state[i] = "split"
+                if kind != "time":
+                    out.append(("C14:%s:tied-%s-segments-partly-deleted%s" % (pn, kn, suffix),
+                                "segment group %d: %d of %d segments with identical time range deleted, the others kept%s" % (
+                                    i, s["members_gone"], s["m"], grp)))
+                continue
+            if s["listed"] and s["files"] and s.get("foreign"):
+                out.append(("C14:%s:surviving-%s-segment-visible-to-another-org%s" % (pn, kn, suffix),
+                            "segment %d (%s, org %s) survived, but another organisation now finds / selects it (%d hits): %s" % (
+                                i, kn, s.get("org"), s["foreign"], s)))
+                continue
+            data_gone = (not s["files"]) or s["found"] == 0
+            meta = "segmeta.json" if k == "log" else "metricmeta.json"
+            if s["listed"] and not s["files"]:
+                out.append(("C14:%s:%s-lists-deleted-segment%s" % (pn, meta, suffix),
+                            "segment %d (%s): directory removed but %s still lists it: %s" % (i, kn, meta, s)))
+            elif (not s["listed"]) and s["files"]:
+                out.append(("C14:%s:%s-segment-files-remain-unlisted%s" % (pn, kn, suffix),
+                            "segment %d (%s): removed from %s but its directory is still there: %s" % (i, kn, meta, s)))
+            elif s["listed"] and s["files"] and (s["found"] != s["of"] or s["count"] != s["of"]):
+                out.append(("C14:%s:surviving-%s-segment-not-fully-searchable%s" % (pn, kn, suffix),
+                            "segment %d (%s) is listed and on disk but search returns %d/%d events (stats count %s): %s" % (
+                                i, kn, s["found"], s["of"], s["count"], s)))
+            elif (not s["listed"]) and (not s["files"]) and (s["found"] or s["count"]):
+                out.append(("C14:%s:deleted-%s-data-still-returned-by-search%s" % (pn, kn, suffix),
+                            "segment %d (%s) is deleted but search still returns %d events (stats count %s)" % (i, kn, s["found"], s["count"])))
+            elif (not s["listed"]) and (not s["files"]) and s["mem"]:
+                out.append(("C14:%s:deleted-%s-segment-still-in-memory-metadata%s" % (pn, kn, suffix),
+                            "segment %d (%s): directory and %s entry are gone but the in-memory segment metadata (what queries walk) "
+                            "still holds its key%s" % (i, kn, meta, grp)))
+            elif (not s["listed"]) and (not s["files"]) and s["picked"]:
+                out.append(("C14:%s:deleted-%s-segment-still-selected-for-search%s" % (pn, kn, suffix),
+                            "segment %d (%s): directory and %s entry are gone, but the time-filtered segment selection every query starts "
+                            "from (FilterSegmentsByTime over the per-table list) still returns its key%s%s" % (
+                                i, kn, meta, grp, ("; query errors: %s" % str(o.get("search_errors_field"))[:200]) if o.get("search_errors_field") else "")))
+            elif (not s["listed"]) and (not s["files"]) and s["rev"]:
+                out.append(("C14:%s:deleted-%s-segment-still-in-reverse-index%s" % (pn, kn, suffix),
+                            "segment %d (%s): directory and %s entry are gone but GetMicroIndex still resolves its key%s" % (i, kn, meta, grp)))
+            elif s["listed"] and s["files"] and s["found"] == s["of"] and s["count"] == s["of"] and s["m"] == s.get("n", {}).get("files", 1) \
+                    and s["m"] == s.get("n", {}).get("listed", 1):
+                missing = [k2 for k2 in ("mem", "rev", "picked") if s.get("n", {}).get(k2, s["m"]) != s["m"]]
+                out.append(("C14:%s:surviving-%s-segment-missing-from-in-memory-metadata%s" % (pn, kn, suffix),
+                            "segment %d (%s) is on disk and listed but missing from %s%s" % (i, kn, missing, grp)))
+            elif s["pq"] and data_gone:
+                out.append(("C14:%s:empty-pq-meta-lists-deleted-segment%s" % (pn, suffix),
+                            "segment %d is deleted (directory, segmeta.json, search) but an empty-PQ meta file still lists its key" % i))
+            else:
+                out.append(("C14:%s:%s-segment-half-deleted%s" % (pn, kn, suffix), "segment %d (%s): %s" % (i, kn, s)))
+        # metadata files list exactly the survivors: a surviving entry is the entry that was there before the pass, field by field
+        pre = res.get("pre_lines") or {}
+        for key2, line in sorted((o.get("lines") or {}).items()):
+            if key2 in pre and line != pre[key2]:
+                flds = sorted(f for f in set(line) | set(pre[key2]) if line.get(f) != pre[key2].get(f))
+                out.append(("C14:%s:segmeta.json-surviving-entry-altered:%s%s" % (pn, "+".join(flds)[:60], suffix),
+                            "segmeta.json entry of surviving segment %s differs from the entry before the pass in %s: %s" % (
+                                key2, flds, {f: [pre[key2].get(f), line.get(f)] for f in flds})))
+                break
+        if o["open_found"] != o["open_of"] or o["open_count"] != o["open_of"]:
+            out.append(("C14:%s:open-or-unrelated-data-not-searchable%s" % (pn, suffix),
+                        "events outside the rotated segments of the scenario: %d/%d found, stats count %d" % (
+                            o["open_found"], o["open_of"], o["open_count"])))
+        if o.get("segmeta_dups"):
+            out.append(("C14:%s:segmeta-duplicate-entries%s" % (pn, suffix), "segmeta.json lists a segment twice"))
+        if o.get("tmp_files"):
+            out.append(("C14:%s:metadata-tmp-file-left%s" % (pn, suffix), "left behind: %s" % o["tmp_files"]))
+        for e in ("search_err", "stats_err", "mquery_err"):
+            if e in o:
+                out.append(("C14:%s:query-error-after-pass%s" % (pn, suffix), "%s: %s" % (e, o[e])))
+        # which segments had to go / stay
+        if kind == "time":
+            for i in sorted(state):
+                hi = segs[i - 1]["hi"]
+                kn = "log" if segs[i - 1]["kind"] == "log" else "metrics"
+                own_passed = segs[i - 1].get("org", 0) in passed
+                if hi < 0 and own_passed and state[i] in ("alive", "split"):
+                    out.append(("C14:time-pass:expired-%s-segment-not-deleted%s" % (kn, suffix),
+                                "segment %d (%s) newest event is older than the horizon but it survived (class lo=%d hi=%d)" % (
+                                    i, kn, segs[i - 1]["lo"], hi)))
+                if hi < 0 and not own_passed and state[i] in ("gone", "split"):
+                    out.append(("C14:time-pass:segment-of-another-org-deleted%s" % suffix,
+                                "segment %d (%s, org %s) was deleted by the pass of org %s" % (i, kn, segs[i - 1].get("org", 0), sorted(passed))))
+                if hi > 0 and state[i] in ("gone", "split"):
+                    out.append(("C14:time-pass:%s-segment-with-newer-event-deleted%s" % (kn, suffix),
+                                "segment %d (%s) contains an event newer than the horizon but was deleted (class lo=%d hi=%d)" % (
+                                    i, kn, segs[i - 1]["lo"], hi)))
         else:
-            out.append(("C14:%s:%s-segment-half-deleted%s" % (pn, kn, suffix), "segment %d (%s): %s" % (i, kn, s)))
-    if o["open_found"] != o["open_of"] or o["open_count"] != o["open_of"]:
-        out.append(("C14:%s:open-or-unrelated-data-not-searchable%s" % (pn, suffix),
-                    "events outside the rotated segments of the scenario: %d/%d found, stats count %d" % (
-                        o["open_found"], o["open_of"], o["open_count"])))
-    if o.get("segmeta_dups"):
-        out.append(("C14:%s:segmeta-duplicate-entries%s" % (pn, suffix), "segmeta.json lists a segment twice"))
-    if o.get("tmp_files"):
-        out.append(("C14:%s:metadata-tmp-file-left%s" % (pn, suffix), "left behind: %s" % o["tmp_files"]))
-    for e in ("search_err", "stats_err", "mquery_err"):
-        if e in o:
-            out.append(("C14:%s:query-error-after-pass%s" % (pn, suffix), "%s: %s" % (e, o[e])))
-    # which segments had to go / stay
-    if kind == "time":
-        for i in sorted(state):
-            hi = segs[i - 1]["hi"]
-            kn = "log" if segs[i - 1]["kind"] == "log" else "metrics"
-            if hi < 0 and state[i] in ("alive", "split"):
-                out.append(("C14:time-pass:expired-%s-segment-not-deleted%s" % (kn, suffix),
-                            "segment %d (%s) newest event is older than the horizon but it survived (class lo=%d hi=%d)" % (
-                                i, kn, segs[i - 1]["lo"], hi)))
-            if hi > 0 and state[i] in ("gone", "split"):
-                out.append(("C14:time-pass:%s-segment-with-newer-event-deleted%s" % (kn, suffix),
-                            "segment %d (%s) contains an event newer than the horizon but was deleted (class lo=%d hi=%d)" % (
-                                i, kn, segs[i - 1]["lo"], hi)))
-    else:
-        for a in sorted(state):
-            for b in sorted(state):
-                # "kept" = its data is still there; a half-deleted older segment (directory already removed by the interrupted
-                # pass, metadata left behind) is reported under its own key above, it is not a segment that was kept
-                if state[a] == "gone" and state[b] != "gone" and o["segs"][b]["files"] and segs[a - 1]["hi"] > segs[b - 1]["hi"]:
-                    out.append(("C14:%s:newer-%s-segment-deleted-older-%s-segment-kept%s" % (
-                        pn, segs[a - 1]["kind"], segs[b - 1]["kind"], suffix),
-                        "segment %d (%s, latest rank %d) deleted while older segment %d (%s, latest rank %d) survives" % (
-                            a, segs[a - 1]["kind"], segs[a - 1]["hi"], b, segs[b - 1]["kind"], segs[b - 1]["hi"])))
-        first = [st for st in beh["steps"] if st["a"] == "start"][0]
-        if not crashed:
-            if not (first["vL"] or first["vM"]) and any(v == "gone" for v in state.values()):
-                out.append(("C14:%s:deletion-while-under-the-limit" % pn, "nothing had to be freed but segments %s were deleted" % [
-                    i for i in state if state[i] == "gone"]))
-            oldest = min(range(1, len(segs) + 1), key=lambda i: segs[i - 1]["hi"])
-            if oldest in first["vL"] + first["vM"] and all(v == "alive" for v in state.values()):
-                out.append(("C14:%s:nothing-deleted-while-over-the-limit" % pn,
-                            "over the limit and the oldest segment fits, but the pass deleted nothing"))
+            for a in sorted(state):
+                for b in sorted(state):
+                    # "kept" = its data is still there; a half-deleted older segment (directory already removed by the interrupted
+                    # pass, metadata left behind) is reported under its own key above, it is not a segment that was kept
+                    if state[a] == "gone" and state[b] != "gone" and o["segs"][b]["files"] and segs[a - 1]["hi"] > segs[b - 1]["hi"]:
+                        out.append(("C14:%s:newer-%s-segment-deleted-older-%s-segment-kept%s" % (
+                            pn, segs[a - 1]["kind"], segs[b - 1]["kind"], suffix),
+                            "segment %d (%s, latest rank %d) deleted while older segment %d (%s, latest rank %d) survives" % (
+                                a, segs[a - 1]["kind"], segs[a - 1]["hi"], b, segs[b - 1]["kind"], segs[b - 1]["hi"])))
+            first = [st for st in beh["steps"] if st["a"] == "start"][0]
+            if not crashed:
+                if not (first["vL"] or first["vM"]) and any(v == "gone" for v in state.values()):
+                    out.append(("C14:%s:deletion-while-under-the-limit" % pn, "nothing had to be freed but segments %s were deleted" % [
+                        i for i in state if state[i] == "gone"]))
+                oldest = min(range(1, len(segs) + 1), key=lambda i: segs[i - 1]["hi"])
+                if oldest in first["vL"] + first["vM"] and all(v == "alive" for v in state.values()):
+                    out.append(("C14:%s:nothing-deleted-while-over-the-limit" % pn,
+                                "over the limit and the oldest segment fits, but the pass deleted nothing"))
+        return state
+
+    state = stage(res["final"], {first_org}, suffix)
+    o = res["final"]
+    if "after_other_org" in res:
+        both = {first_org, res["org2"]}
+        stage(res["after_other_org"], both, suffix + ":after-other-org-pass")
+        stage(res["after_other_org_restart"], both, suffix + ":after-other-org-pass+restart")
     # same outcome when repeated / after a restart / when interrupted and repeated
     if obs_key(res["after_repeat"]) != obs_key(o) and kind != "inode":
         out.append(("C14:%s:repeat-changes-outcome%s" % (pn, suffix), "second run of the completed pass changed the outcome: %s -> %s" % (
@@ -900,7 +965,7 @@ def model_mismatch(beh, res):
 # --------------------------------------------------------------------------- selection of behaviours
 
 def scen_id(b):
-    return json.dumps([b["segs"], b["kind"], b["limit"], b["openw"], b["pq0"]], sort_keys=True)
+    return json.dumps([b["segs"], b["kind"], b["limit"], b["openw"], b["pq0"], b["steps"][0].get("org", 0)], sort_keys=True)
 
 
 def group(behs):
@@ -950,7 +1015,9 @@ def run(chk):
             ("as coded: volume order", "MC_Retention_ascoded_order.cfg", False),
             ("as coded: inode pass interrupted", "MC_Retention_ascoded_inode.cfg", False),
             ("as coded: empty-PQ meta", "MC_Retention_ascoded_pq.cfg", False),
-            ("model mutant: per-table list entry located by binary search on the latest time (ties)", "MC_Retention_mut_bsearch.cfg", False)]
+            ("model mutant: per-table list entry located by binary search on the latest time (ties)", "MC_Retention_mut_bsearch.cfg", False),
+            ("two organisations in one segmeta.json, per-organisation time passes (must hold)", "MC_Retention_orgs.cfg", False),
+            ("model mutant: segmeta.json rewrite decodes into one reused entry (two organisations)", "MC_Retention_mut_scratch.cfg", False)]
     if not quick:
         jobs.insert(2, ("volume + inode passes, intended design, 4 segments (must hold)", "MC_Retention_intended_deep.cfg", False))
 
@@ -977,7 +1044,8 @@ def run(chk):
 
     # ---- behaviours
     gens = [("time", "Gen_Retention_time.cfg" if quick else "Gen_Retention_time_deep.cfg"),
-            ("pq", "Gen_Retention_pq.cfg"), ("volume", "Gen_Retention_volume.cfg"), ("vties", "Gen_Retention_volume_ties.cfg"),
+            ("pq", "Gen_Retention_pq.cfg"), ("orgs", "Gen_Retention_orgs.cfg"), ("volume", "Gen_Retention_volume.cfg"),
+            ("vties", "Gen_Retention_volume_ties.cfg"),
             ("inode", "Gen_Retention_inode.cfg")]
     gres = vlib.pmap(lambda g: vlib.tlc_generate("Gen_Retention", g[1], timeout=1500), gens, workers=2)
     behs = {}
@@ -988,6 +1056,8 @@ def run(chk):
         behs[name] = bs
     for b in behs["pq"]:
         b["pq_scenario"] = True
+    # two organisations: the first completed pass of one organisation; the harness itself runs the other one's pass afterwards
+    behs["orgs"] = [b for b in behs["orgs"] if len([st for st in b["steps"] if st["a"] in ("start", "repeat")]) == 1]
     for b in behs["vties"]:
         b["ties"] = True      # sort.Slice may order tied entries either way: several scan orders per scenario
     ex = cf.ThreadPoolExecutor(max_workers=2)
@@ -1025,6 +1095,22 @@ def replay_all(chk, quick, rnd, binary, mount_ok, behs):
     g_tie_v = {k: v for k, v in g_all.items() if mult(v[0]) > 1 and tied_victims(v[0]) and not has_met(v[0])}
     g_tie_vm = {k: v for k, v in g_all.items() if mult(v[0]) > 1 and tied_victims(v[0]) and has_met(v[0])}
     g_tie_s = {k: v for k, v in g_all.items() if mult(v[0]) > 1 and not tied_victims(v[0]) and not has_met(v[0]) and interesting_time(v[0])}
+    # multi-tenant segmeta.json: both organisations' lines interleaved, a pass that rewrites the file (victims and survivors)
+    def orgs_interesting(b):
+        st = b["steps"][0]
+        vict = set(st["vL"] + st["vM"])
+        surv = [i for i in range(1, len(b["segs"]) + 1) if i not in vict]
+        return len(set(x.get("org", 0) for x in b["segs"])) > 1 and vict and surv
+
+    def foreign_line_before_default_survivor(b):
+        vict = set(b["steps"][0]["vL"])
+        return any(b["segs"][j - 1].get("org", 0) != 0 and b["segs"][i - 1].get("org", 0) == 0 and i not in vict
+                   for i in range(1, len(b["segs"]) + 1) for j in range(1, i))
+    g_org = {k: v for k, v in group(behs["orgs"]).items() if orgs_interesting(v[0])}
+    g_org_a = {k: v for k, v in g_org.items() if foreign_line_before_default_survivor(v[0])}
+    g_org_b = {k: v for k, v in g_org.items() if k not in g_org_a}
+    plan += pick(g_org_a, rnd, 2 if quick else 16, 0)
+    plan += pick(g_org_b, rnd, 2 if quick else 16, 0)
     plan += pick(g_tie_v, rnd, 3 if quick else 20, 1 if quick else 3, prefer=lambda b: len(b["segs"]) > 1)
     plan += pick(g_tie_vm, rnd, 0 if quick else 4, 1)
     plan += pick(g_tie_s, rnd, 1 if quick else 6, 1)
@@ -1124,6 +1210,7 @@ def replay_all(chk, quick, rnd, binary, mount_ok, behs):
     chk.cov["behaviours_with_tied_segments"] = {
         "groups_of_12_identical_ranges": len([1 for t in tasks if max(s.get("m", 1) for s in t[1]["segs"]) > 1]),
         "volume_pass_latest_time_ties": len([1 for t in tasks if t[1].get("ties")])}
+    chk.cov["behaviours_with_two_organisations"] = len([1 for t in tasks if len(set(s.get("org", 0) for s in t[1]["segs"])) > 1])
     chk.cov["skipped"] = skipped
     chk.cov["findings_by_key"] = vio_seen
     chk.cov["model_predicted_failure_not_reproduced"] = len(fixed)
